@@ -137,24 +137,26 @@ structure E where
   stack : List Str
   deriving DecidableEq, Repr
 
-/-- `CloneBase(err, stackType, dTag, source, extMsg, srcError)` restricted to the fields of `E`. -/
-def cloneBase (base : E) (st : StackType) (dTag source extMsg : Str) (fr : Frames) : E :=
-  -- clone := &GError{Name: base.Name, Message: …, Source: …, detailTag: …, stack: base.stack}
-  let clone : E := { name := base.name, msg := base.msg, src := base.src, dtag := base.dtag, stack := base.stack }
-  -- handle source
-  let clone := if source ≠ [] ∧ clone.src = [] then { clone with src := source } else clone
-  -- handle detail tags
-  let clone :=
-    if dTag ≠ [] then
-      if clone.dtag = [] then { clone with dtag := dTag } else { clone with dtag := clone.dtag ++ ['-'] ++ dTag }
-    else clone
-  -- handle message extension
+/-- `// handle source:` -/
+def withSource (clone : E) (source : Str) : E :=
+  if source ≠ [] ∧ clone.src = [] then { clone with src := source } else clone
+
+/-- `// handle detail tags:` -/
+def withDTag (clone : E) (dTag : Str) : E :=
+  if dTag ≠ [] then
+    if clone.dtag = [] then { clone with dtag := dTag } else { clone with dtag := clone.dtag ++ ['-'] ++ dTag }
+  else clone
+
+/-- `// handle message extension:` -/
+def withMsg (clone : E) (extMsg : Str) : E :=
   let extMsg := trimSpace extMsg
-  let clone :=
-    if extMsg ≠ [] then
-      if clone.msg = [] then { clone with msg := extMsg } else { clone with msg := clone.msg ++ [' '] ++ extMsg }
-    else clone
-  -- stacks
+  if extMsg ≠ [] then
+    if clone.msg = [] then { clone with msg := extMsg } else { clone with msg := clone.msg ++ [' '] ++ extMsg }
+  else clone
+
+/-- the stack / derived-source tail of `CloneBase` -/
+def withStack (clone : E) (st : StackType) (fr : Frames) : E :=
+  -- "If we already have a stack, don't want one, or want a source and already have it skip stacks."
   if clone.stack.length > 0 ∨ st = .noStack ∨ (st = .sourceStack ∧ clone.src ≠ []) then clone
   else
     let clone := { clone with stack := makeStack st fr }
@@ -162,6 +164,13 @@ def cloneBase (base : E) (st : StackType) (dTag source extMsg : Str) (fr : Frame
       let clone := { clone with src := metric (nearestExternal clone.stack) }
       if st = .sourceStack then { clone with stack := [] } else clone
     else clone
+
+/-- `CloneBase(err, stackType, dTag, source, extMsg, srcError)` restricted to the fields of `E`:
+copy, then the four blocks of the function body in their order. -/
+def cloneBase (base : E) (st : StackType) (dTag source extMsg : Str) (fr : Frames) : E :=
+  -- clone := &GError{Name: base.Name, Message: …, Source: …, detailTag: …, stack: base.stack}
+  let clone : E := { name := base.name, msg := base.msg, src := base.src, dtag := base.dtag, stack := base.stack }
+  withStack (withMsg (withDTag (withSource clone source) dTag) extMsg) st fr
 
 /-! ## gerror.go: the factory methods -/
 
